@@ -1,6 +1,7 @@
 (** * C07 - acceleration shortcuts never change an answer.
-    Proved: the surface pre-test, the kd shortcut, and the sufficiency of the slab/fault depth cut-off for chains of
-    straight pieces.  Arcs, the surface bounding box and spherical worlds: decided by the hook on/off oracle. *)
+    Proved: the surface pre-test, the kd shortcut, and the sufficiency of the slab/fault depth cut-off and horizontal
+    reach for chains of straight pieces and circular arcs (the planar construction of C06).  The 3-D frame around curved
+    trenches and spherical worlds: decided by the hook on/off oracle. *)
 From Coq Require Import Reals Lra List.
 From WB Require Import Num Base RNum Kernels KdSpec KdProofs SurfaceProofs Bezier SlabSpec SlabSpecProofs HullProofs.
 Import ListNotations.
@@ -57,6 +58,28 @@ Section C07.
     (forall L' th', In (L', th') prefix -> 0 <= L') -> 0 <= a <= L ->
     Rabs (chain_end_x prefix sx + a * cos th - d * sin th - sx) <= (chain_length prefix + L) + Rabs d.
   Proof. intros prefix sx L th a d H1 H2. exact (reach_sufficient_straight prefix sx L th a d H1 H2). Qed.
+
+  (** the same two bounds for every chain the planar specification of C06 can walk - straight pieces *and arcs*
+      (dip varying linearly with arclength): a point whose foot lies on the piece [p] that follows the pieces
+      [prefix] (at arclength [a] of a straight piece, at the dip [phi] of an arc) and that is offset by [d] along the
+      normal lies horizontally within, and no deeper below the start of the surface than, the length of the chain up
+      to the end of that piece + |d|.  With along <= total length and |d| <= max(thickness, -top truncation) this
+      is the depth cut-off (min depth + total length + thickness) and the buffer of the surface bounding box. *)
+  Theorem C07_reach_and_cutoff_chain : forall (prefix : list (@piece R)) sx sy p a phi d,
+    Forall (fun q => 0 <= pc_len q) prefix -> 0 <= pc_len p -> foot_on_piece sp p a phi ->
+    let s := gchain_end sp prefix sx sy in
+    let q := on_piece sp (fst s) (snd s) p a phi d in
+    Rabs (fst q - sx) <= (glength prefix + pc_len p) + Rabs d /\
+    snd q - sy <= (glength prefix + pc_len p) + Rabs d.
+  Proof. exact (reach_and_cutoff_general sp). Qed.
+
+  (** [gchain_end] is where the specification starts the next piece: the start of piece j handed to [eval_piece]
+      by [planar_chain] is the end of the chain of the first j pieces *)
+  Theorem C07_chain_walk : forall (ps : list (@piece R)) sx sy p,
+    gchain_end sp (ps ++ [p]) sx sy =
+    (pe_ex (@eval_piece R N (fst (gchain_end sp ps sx sy)) (snd (gchain_end sp ps sx sy)) p 0 0),
+     pe_ey (@eval_piece R N (fst (gchain_end sp ps sx sy)) (snd (gchain_end sp ps sx sy)) p 0 0)).
+  Proof. exact (gchain_end_snoc sp). Qed.
 End C07.
 
 Print Assumptions C07_pretest.
@@ -64,3 +87,5 @@ Print Assumptions C07_kd_is_exact.
 Print Assumptions C07_depth_cutoff_straight.
 Print Assumptions C07_trench_in_control_box.
 Print Assumptions C07_horizontal_reach_straight.
+Print Assumptions C07_reach_and_cutoff_chain.
+Print Assumptions C07_chain_walk.
